@@ -791,7 +791,10 @@ def main(argv):
     refs = build_references(lib, scratch)
     unusable, hs_viol = ref_problems(lib, refs)
     ref_s = timer.s()
-    if not hs_viol and (len([u for u in unusable if not u.startswith("rnd-") and "~t" not in u]) > 6 or len(unusable) > len(lib) * 0.5):
+    expected = {d["id"] for d in lib if d.get("expect_unusable")} | {d["id"] for d in lib if d.get("twin_of") in
+                                                                     {x["id"] for x in lib if x.get("expect_unusable")}}
+    if not hs_viol and (len([u for u in unusable if not u.startswith("rnd-") and "~t" not in u and u not in expected]) > 6
+                        or len(unusable) > len(lib) * 0.5):
         raise K.HarnessError(f"too many unusable descriptions: {unusable}")
     usable = [d for d in lib if d["id"] not in unusable and not d.get("twin_of") and not d.get("solo_only")
               and not any(h["desc"]["id"] == d["id"] for h in hs_viol)]
